@@ -477,6 +477,27 @@ pub fn trywith(thorough: bool) -> Vec<Program> {
                 }
             }
         }
+        // the initialiser of one element allocates in the same arena (and keeps / releases it), a later
+        // element fails: the failed slice must not take the initialiser's own block with it
+        for rem in [448usize, 200, 40, 0] {
+            for (ty, len, fail_at, at) in [(3u8, 6usize, 2i64, 0usize), (4, 8, 7, 3), (1, 30, -1, 5), (0, 5, 3, 1), (5, 2, 1, 1), (4, 3, 1, 2)] {
+                for clos in [Clos::Keep(9), Clos::Keep(600), Clos::Release(16), Clos::Zst] {
+                    for iter in [false, true] {
+                        let mut ops = vec![New { cap: None, fallible: false }];
+                        if rem < 448 {
+                            ops.push(l(448 - rem, 1));
+                        }
+                        ops.push(TryFillClos { ty, len, fail_at, iter, at, clos: clos.clone() });
+                        ops.push(l(64, 1));
+                        ops.push(TryFillClos { ty, len, fail_at, iter, at, clos: clos.clone() });
+                        ops.push(Again);
+                        ops.push(l(100, 8));
+                        ops.push(Iter);
+                        out.push(Program { ma, ops, tag: "tryfillclos".into() });
+                    }
+                }
+            }
+        }
     }
     out
 }
